@@ -354,7 +354,13 @@ func (x *Exec) accessCheck(st *State, key string, ref Term, write bool, pos toke
 
 func (x *Exec) heldKey(lock string) string {
 	key := "held:" + lock
-	x.registerHeap(key, func() Value { return x.vc.freshBase("held."+lock, sortBool) })
+	x.registerHeap(key, func() Value {
+		if !x.declaredLockClass(lock) {
+			// a mutex no contract mentions cannot be passed in held: no caller's contract could say so
+			return tFalse
+		}
+		return x.vc.freshBase("held."+lock, sortBool)
+	})
 	return key
 }
 
